@@ -332,4 +332,49 @@ public class GrolPrims {
         for (int i = 0; i < x.length(); i++) { vs[i] = IntValue.gen(x.charAt(i) & 0xff); }
         return new TupleValue(vs);
     }
+
+    // ================================================================ C14 block (SaveLoad.tla) - begin
+    // Go strconv.ParseInt(s, 0, 64) restricted to what a saved file can contain: an unsigned run of
+    // decimal digits (a leading 0 followed by more digits is octal in base 0). "" when it fails
+    // (syntax or range), else the canonical decimal string.
+    private static String parseIntGo(final String x) {
+        if (x.isEmpty()) { return ""; }
+        for (int i = 0; i < x.length(); i++) { char c = x.charAt(i); if (c < '0' || c > '9') { return ""; } }
+        try {
+            if (x.length() > 1 && x.charAt(0) == '0') { return Long.toString(Long.parseLong(x.substring(1), 8)); }
+            return Long.toString(Long.parseLong(x, 10));
+        } catch (NumberFormatException e) {
+            return "";
+        }
+    }
+    public static Value I64ParseOk(final Value a) { return B(!parseIntGo(str(a)).isEmpty()); }
+    public static Value I64Parse(final Value a) { return new StringValue(parseIntGo(str(a))); }
+    // Go strconv.ParseFloat(s, 64) of digits with an optional '.' (correctly rounded); "" on failure.
+    public static Value F64Parse(final Value a) {
+        String x = str(a);
+        boolean digit = false;
+        for (int i = 0; i < x.length(); i++) {
+            char c = x.charAt(i);
+            if (c >= '0' && c <= '9') { digit = true; } else if (c != '.') { return new StringValue(""); }
+        }
+        if (!digit || x.indexOf('.') != x.lastIndexOf('.')) { return new StringValue(""); }
+        double v = Double.parseDouble(x);
+        if (Double.isInfinite(v)) { return new StringValue(""); }
+        return D(v);
+    }
+    // smallest j >= i (1-based) with s[j] one of the chars of `set`, Len(s)+1 when there is none
+    public static Value StrIndexAny(final Value a, final Value from, final Value set) {
+        String x = str(a), cs = str(set);
+        int i = (int) l(from);
+        if (i < 1) { i = 1; }
+        for (int j = i - 1; j < x.length(); j++) { if (cs.indexOf(x.charAt(j)) >= 0) { return IntValue.gen(j + 1); } }
+        return IntValue.gen(x.length() + 1);
+    }
+    public static Value StrFromBytes(final Value seq) {
+        TupleValue t = (TupleValue) seq.toTuple();
+        StringBuilder sb = new StringBuilder();
+        for (Value v : t.elems) { sb.append((char) (l(v) & 0xff)); }
+        return new StringValue(sb.toString());
+    }
+    // ================================================================ C14 block - end
 }
